@@ -373,6 +373,12 @@ class NCCHReader(TypeReaderCryptoBase):
             self.load_sections()
 
     def close(self):
+        # the nested readers hand out files of their own (a decompressed .code is served from memory), which end with this reader
+        for nested in ('exefs', 'romfs'):
+            try:
+                getattr(self, nested).close()
+            except AttributeError:
+                pass
         super().close()
         try:
             self._exefs_fp.close()
